@@ -80,6 +80,7 @@ HF_AT_ZERO = {"UCCSD", "UpCCGSD", "UCCGD", "pUCCD", "UCC1", "UCC3"}
 THETAS = ["zero", "equal", "alt", "onehot", "dense"]
 DEFL = [("ref", 1), ("ref", 0.4), ("ref+orth", 1), ("ref+orth", 0.4)]
 OPS = ["N", "Sz", "S^2"]
+_HNOPEN = {}
 PENALTY = {"N": [1.5, None], "Sz": [0.7, None], "S^2": [0.4, None]}   # target values filled in per molecule
 PROJ_RESULT = "1"
 
@@ -615,7 +616,47 @@ class Run:
         herm = float(np.abs(info["Hm"] - info["Hm"].conj().T).max())
         info["lmin"] = float(np.linalg.eigvalsh((info["Hm"] + info["Hm"].conj().T) / 2)[0]) if herm < 1e-9 else None
         info["enc"] = {}
+        if v["pen"] and self.is_mol and solver.qubit_mapping.upper() != "HCB":
+            self.check_penalty_hamiltonian(solver, info, v)
         return info
+
+    def check_penalty_hamiltonian(self, solver, info, v):
+        """With penalty_terms the Hamiltonian the solver minimises must be H_molecule + sum_k w_k (O_k - t_k)^2, the O_k being the
+        reference N / Sz / S^2 (mc/ref/fermion.py) under the solver's own encoding and ordering."""
+        from tangelo.algorithms.variational import VQESolver
+        acc = self.acc
+        key = ("Hnopen", self.cfg)
+        if key not in _HNOPEN:
+            try:
+                opt = make_options(self.cfg, dict(v, pen=False, ref="none", proj=False), self.g, None)
+                s0 = quiet(VQESolver, opt)
+                quiet(s0.build)
+                _HNOPEN[key] = dense_op(s0.qubit_hamiltonian, info["n"]) if op_width(s0.qubit_hamiltonian) <= info["n"] else None
+            except Exception:
+                _HNOPEN[key] = None
+        H0 = _HNOPEN[key]
+        if H0 is None or H0.shape != info["Hm"].shape:
+            acc.count("penalty_reference_unavailable")
+            return
+        m = get_mol(self.cfg[0])
+        sp = m.active_spin / 2
+        targets = {"N": m.n_active_electrons, "Sz": sp, "S^2": sp * (sp + 1)}
+        Href = H0.copy()
+        I = np.eye(H0.shape[0])
+        for op in OPS:
+            stt, M = self.enc_matrix(solver, info, op)
+            if stt != "ok":
+                acc.count("penalty_reference_unavailable")
+                return
+            D = M - targets[op] * I
+            Href = Href + PENALTY[op][0] * (D @ D)
+        acc.ev()
+        acc.count("penalty_hamiltonians_compared")
+        d = float(np.linalg.norm(info["Hm"] - Href, 2))
+        if d > 1e-6:
+            self.bad("build(penalty_terms)", "hamiltonian-is-not-H+sum-w(O-t)^2", f"{solver.qubit_mapping},utd={solver.up_then_down},{self.cfg[1]}",
+                     self.case(v), {"operator_norm_distance": d, "penalty_terms": {k: [PENALTY[k][0], targets[k]] for k in OPS},
+                                    "repro": self.repro(v)})
 
     def enc_matrix(self, solver, info, op):
         """Dense matrix of the solver's encoding of the reference fermionic operator `op` (or the exception it raises)."""
@@ -623,6 +664,13 @@ class Run:
             return info["enc"][op]
         from tangelo.toolboxes.qubit_mappings.mapping_transform import fermion_to_qubit_mapping
         mol = self.cfg[0]
+        if op == "QOP":      # a user-supplied qubit operator: its own dense matrix
+            r = info["enc"][op] = ("ok", dense_op(self.op_argument(op, info), info["n"]))
+            return r
+        if op == "FOP":      # a user-supplied fermionic operator N + 0.5 Sz: by linearity of the encoding
+            a, b = self.enc_matrix(solver, info, "N"), self.enc_matrix(solver, info, "Sz")
+            r = info["enc"][op] = ("ok", a[1] + 0.5 * b[1]) if a[0] == b[0] == "ok" else ("exc", "N or Sz not encodable")
+            return r
         if solver.qubit_mapping.upper() == "HCB":
             # hard-core bosons: qubit i = pair occupation of spatial orbital i.  The Tangelo HCB transform is not a
             # representation of the fermionic algebra (it reads spin-free integrals), so the expectation value "of that
@@ -646,6 +694,21 @@ class Run:
             r = ("exc", repr(e)[:200])
         info["enc"][op] = r
         return r
+
+    def op_argument(self, op, info):
+        """What is handed to operator_expectation: the documented strings, a QubitOperator, or a FermionOperator."""
+        if op == "QOP":
+            from tangelo.toolboxes.operators import QubitOperator
+            n = info["n"]
+            return QubitOperator("Z0", 0.7) + QubitOperator(f"X0 Y{n - 1}" if n > 1 else "X0", -0.45) + QubitOperator((), 0.25)
+        if op == "FOP":
+            mol = self.cfg[0]
+            n_sos = 2 if mol == "BARE" else get_mol(mol).n_active_sos
+            sym = dict(ref_fermion_op("N", n_sos))
+            for t, c in ref_fermion_op("Sz", n_sos).items():
+                sym[t] = sym.get(t, 0) + 0.5 * c
+            return to_tangelo_fermion(sym)
+        return op
 
     def gate_list(self, solver, ref_arg_is_reference):
         gates = []
@@ -801,9 +864,11 @@ class Run:
                              dcase, {"solver_increment": inc, "reference_increment": exp_inc, "overlaps": ovs, "coeff": defl[1],
                                      "plain_energy": e0, "ansatz_circuit_width": solver.ansatz.circuit.width, "register": n, "repro": self.repro(v, st["seq"], "E", defl)})
             # ---- operator expectations ---------------------------------------------------------------------------------
-            for op in OPS:
+            for op in OPS + ["QOP", "FOP"]:
                 if only_ops is not None and op not in only_ops:
                     continue
+                if op == "FOP" and solver.qubit_mapping.upper() == "HCB":
+                    continue        # the HCB transform is only defined for spin-free Hamiltonians
                 ocase = self.case(v, tname, {"op": op, "seq": list(st["seq"])})
                 H_before = solver.qubit_hamiltonian
                 kw = {}
@@ -814,7 +879,7 @@ class Run:
                 acc.transitions += 1
                 err = None
                 try:
-                    val = quiet(solver.operator_expectation, op, list(theta), **kw)
+                    val = quiet(solver.operator_expectation, self.op_argument(op, info), list(theta), **kw)
                 except Exception as e:
                     err = e
                 acc.ev()
@@ -849,6 +914,20 @@ class Run:
                 if not abs(val - ref_val) <= TOL_E:
                     self.bad("operator_expectation", "value-mismatch", mp_sig + f",{cfg[1]},{cfg[0]}", ocase,
                              {"solver": val, "reference": ref_val, "diff": abs(val - ref_val), "repro": self.repro(v, st["seq"], op)})
+            # ---- the same energy again: nothing evaluated in between (deflation, operator expectations) may have left a trace ----
+            if only_ops is None or only_ops == ["E-again"]:
+                acc.transitions += 1
+                acc.ev()
+                solver.deflation_circuits = []
+                try:
+                    e1 = quiet(solver.energy_estimation, list(theta))
+                except Exception as e:
+                    e1 = repr(e)[:200]
+                if isinstance(e1, str) or not abs(e1 - e0) <= TOL_E:
+                    self.bad("energy_estimation", "value-changes-after-operator_expectation-and-deflation-calls", sigkey(cfg, v),
+                             self.case(v, tname, {"op": "E-again", "seq": list(st["seq"])}),
+                             {"first": e0, "again": e1, "repro": self.repro(v, st["seq"], "E")})
+                    solver.qubit_hamiltonian = info["H_obj"]
 
     def run(self):
         for v in variants_for(self.level, self.is_mol, self.cfg[1]):
@@ -872,7 +951,9 @@ def replay_case(case):
         r.build(v)
         return acc
     seq = case.get("seq") or [case["theta"]]
-    if "op" in case:
+    if case.get("op") == "E-again":
+        r.run_variant(v, theta_seq=seq, only_defl=None, only_ops=None)
+    elif "op" in case:
         r.run_variant(v, theta_seq=seq, only_defl=None, only_ops=[case["op"]])
     elif "defl" in case:
         r.run_variant(v, theta_seq=seq, only_defl=case["defl"], only_ops=[])
